@@ -98,10 +98,18 @@ def build(desc):
         _, idesc, rows, meta, path = desc
         inst = build_inst(idesc)
         if path == 1:
+            # built incrementally AND compared / hashed-by-content while it grows (what an episode loop does):
+            # an answer computed on an earlier state must not survive Schedule.add
             s = Schedule(inst, **_meta(meta))
+            _ = s == Schedule(inst)
+            k = 0
             for row in rows:
                 for j, p, st, m in row:
                     s.add(ScheduledOperation(inst.jobs[j][p], st, m))
+                    k += 1
+                    if k % 2 == 1:
+                        _ = s == s
+                        _ = s != Schedule(inst)
             return s
         return Schedule(inst, [[ScheduledOperation(inst.jobs[j][p], st, m) for j, p, st, m in row]
                                for row in rows], **_meta(meta))
